@@ -1044,7 +1044,7 @@ impl Model for ObjModel {
 
     fn next_state(&self, s: &St, a: Act) -> Option<St> {
         // (under the watchdog: an operation or a query that never returns is a violation)
-        explore::watched_for(60, b"one operation of the history search on the real Object, or the queries after it", || {
+        explore::watched_for(60, b"one operation of the history search on the real Object, or the queries after it", || explore::in_env(|| {
         let mut n = s.clone();
         n.depth += 1;
         KIND_COUNT[a.kind_index()].fetch_add(1, std::sync::atomic::Ordering::Relaxed);
@@ -1084,7 +1084,7 @@ impl Model for ObjModel {
             n.depth = 0;
         }
         Some(n)
-            })
+            }))
     }
 
     fn properties(&self) -> Vec<Property<Self>> {
